@@ -390,6 +390,51 @@ impl VarIntEncoder {
 
 // Delta encoding implementations
 impl VarIntEncoder {
+    /// LEB128 of a code wider than 64 bits (sign bit plus the 64-bit magnitude of a u64 delta)
+    fn encode_leb128_u128(&self, mut value: u128) -> Result<Vec<u8>> {
+        let mut result = Vec::new();
+        
+        loop {
+            let mut byte = (value & 0x7F) as u8;
+            value >>= 7;
+            
+            if value != 0 {
+                byte |= 0x80;
+            }
+            
+            result.push(byte);
+            
+            if value == 0 {
+                break;
+            }
+        }
+        
+        Ok(result)
+    }
+    
+    fn decode_leb128_u128(&self, data: &[u8]) -> Result<(u128, usize)> {
+        let mut result = 0u128;
+        let mut shift = 0;
+        let mut bytes_read = 0;
+        
+        for &byte in data {
+            if shift >= 128 {
+                return Err(ZiporaError::invalid_data("LEB128 overflow"));
+            }
+            
+            result |= ((byte & 0x7F) as u128) << shift;
+            bytes_read += 1;
+            
+            if (byte & 0x80) == 0 {
+                return Ok((result, bytes_read));
+            }
+            
+            shift += 7;
+        }
+        
+        Err(ZiporaError::invalid_data("Incomplete LEB128"))
+    }
+    
     fn encode_delta_sequence_u64(&self, values: &[u64]) -> Result<Vec<u8>> {
         if values.is_empty() {
             return self.encode_leb128_u64(0);
@@ -404,15 +449,17 @@ impl VarIntEncoder {
         let first_bytes = self.encode_leb128_u64(values[0])?;
         result.extend_from_slice(&first_bytes);
         
-        // Write deltas
+        // Write deltas. The magnitude of a u64 difference takes up to 64 bits, so with the sign
+        // bit the code needs 65: it is written as a 128-bit LEB128, whose bytes are those of the
+        // 64-bit one whenever the code fits in 64 bits
         for i in 1..values.len() {
             let delta = if values[i] >= values[i-1] {
-                (values[i] - values[i-1]) << 1 // Positive delta, LSB = 0
+                ((values[i] - values[i-1]) as u128) << 1 // Positive delta, LSB = 0
             } else {
-                ((values[i-1] - values[i]) << 1) | 1 // Negative delta, LSB = 1
+                (((values[i-1] - values[i]) as u128) << 1) | 1 // Negative delta, LSB = 1
             };
             
-            let delta_bytes = self.encode_leb128_u64(delta)?;
+            let delta_bytes = self.encode_leb128_u128(delta)?;
             result.extend_from_slice(&delta_bytes);
         }
         
@@ -464,15 +511,17 @@ impl VarIntEncoder {
         
         // Read deltas
         for _ in 1..count {
-            let (encoded_delta, delta_bytes) = self.decode_leb128_u64(&data[offset..])?;
+            let (encoded_delta, delta_bytes) = self.decode_leb128_u128(&data[offset..])?;
+            let magnitude = u64::try_from(encoded_delta >> 1)
+                .map_err(|_| ZiporaError::invalid_data("delta magnitude exceeds 64 bits"))?;
             
             let prev_value = result[result.len() - 1];
             let next_value = if (encoded_delta & 1) == 0 {
                 // Positive delta
-                prev_value.checked_add(encoded_delta >> 1)
+                prev_value.checked_add(magnitude)
             } else {
                 // Negative delta
-                prev_value.checked_sub(encoded_delta >> 1)
+                prev_value.checked_sub(magnitude)
             }
             .ok_or_else(|| ZiporaError::invalid_data("delta sequence leaves the u64 range"))?;
             
